@@ -231,9 +231,13 @@ def insertEnt (e : DirEnt) : List DirEnt → List DirEnt
 /-- `sort.Sort(dirEnts(contents))`: by name. -/
 def sortEnts (l : List DirEnt) : List DirEnt := l.foldr insertEnt []
 
-def isJson (name : String) : Bool :=
+/-- `strings.HasSuffix(name, suf)` -/
+def hasSuffix (suf name : String) : Bool :=
   let l := name.toList
-  l.length ≥ 5 && l.drop (l.length - 5) == ".json".toList
+  let s := suf.toList
+  l.length ≥ s.length && l.drop (l.length - s.length) == s
+
+def isJson (name : String) : Bool := hasSuffix ".json" name
 
 /-- the inner loop over a sorted directory listing -/
 def readDir (t : List FieldSpec) : List DirEnt → Config → Option Config
@@ -274,6 +278,95 @@ def allOk : List (Option Config) → Option (List Config)
   | [] => some []
   | none :: _ => none
   | some c :: rest => (allOk rest).map (c :: ·)
+
+/-! ### ReadConfigPaths as a function of its extracted shape
+
+`Gen/MergeConfig.lean` describes the body of `ReadConfigPaths` by the variation points below
+(and pins the exact statement sequence separately); `readPathsS` interprets them.
+`canonicalRead` is the shape `readPaths` above hard-codes (`readPathsS_canonical`). -/
+
+inductive MergeOrder | resultFirst | configFirst      -- MergeConfig(result, config) | MergeConfig(config, result)
+  deriving DecidableEq, Repr
+inductive SortOrder | unsorted | ascending | descending   -- no sort.Sort | Less = a < b | Less = a > b  (on names)
+  deriving DecidableEq, Repr
+/-- `running`: every file of a directory is merged into the running result;
+`separate`: the directory's files are merged into an own `new(Config)` which is then merged
+into the result (the shape of seeded mutation C31-a) -/
+inductive DirMode | running | separate
+  deriving DecidableEq, Repr
+
+structure ReadShape where
+  fileMerge : MergeOrder
+  sort : SortOrder
+  skipSubdirs : Bool
+  suffix : String
+  dirMerge : MergeOrder
+  dirMode : DirMode
+  deriving DecidableEq, Repr
+
+def canonicalRead : ReadShape :=
+  { fileMerge := .resultFirst, sort := .ascending, skipSubdirs := true, suffix := ".json",
+    dirMerge := .resultFirst, dirMode := .running }
+
+def mergeBy (t : List FieldSpec) : MergeOrder → Config → Config → Config
+  | .resultFirst, r, c => merge t r c
+  | .configFirst, r, c => merge t c r
+
+/-- the order in which the directory loop sees the entries (`ents` = the order `Readdir` returned) -/
+def orderEnts : SortOrder → List DirEnt → List DirEnt
+  | .unsorted, l => l
+  | .ascending, l => sortEnts l
+  | .descending, l => (sortEnts l).reverse
+
+def readDirS (s : ReadShape) (t : List FieldSpec) : List DirEnt → Config → Option Config
+  | [], acc => some acc
+  | e :: es, acc =>
+    if s.skipSubdirs && e.isDir then readDirS s t es acc
+    else if !hasSuffix s.suffix e.name then readDirS s t es acc
+    else match e.cfg with
+      | none => none                                   -- os.Open / DecodeConfig fails (a directory cannot be decoded either)
+      | some c => readDirS s t es (mergeBy t s.dirMerge acc c)
+
+def readLoopS (s : ReadShape) (t : List FieldSpec) : List PathArg → Config → Option Config
+  | [], acc => some acc
+  | .unreadable :: _, _ => none
+  | .file none :: _, _ => none
+  | .file (some c) :: ps, acc => readLoopS s t ps (mergeBy t s.fileMerge acc c)
+  | .dir ents :: ps, acc =>
+    match s.dirMode with
+    | .running =>
+      match readDirS s t (orderEnts s.sort ents) acc with
+      | none => none
+      | some acc' => readLoopS s t ps acc'
+    | .separate =>
+      match readDirS s t (orderEnts s.sort ents) (zero t) with
+      | none => none
+      | some d => readLoopS s t ps (merge t acc d)
+
+def readPathsS (s : ReadShape) (t : List FieldSpec) (ps : List PathArg) : Option Config :=
+  readLoopS s t ps (zero t)
+
+/-! ### DecodeConfig's post-processing
+
+After `json` + `mapstructure` (a parameter: the decoded fields as given), `DecodeConfig` turns
+each non-empty `XRaw` string into the duration `X` with `time.ParseDuration` (a parameter
+`parseDur`; `none` = error) and fails on the first string that does not parse.  `pairs` = the
+(raw field, duration field) pairs in the order of the statements (regenerated). -/
+
+def setField (c : Config) (name : String) (v : FieldVal) : Config :=
+  c.map fun p => if p.1 == name then (name, v) else p
+
+def decodeStep (parseDur : String → Option Int) (c : Config) (pr : String × String) : Option Config :=
+  match get c pr.1 with
+  | .str s => if s ≠ "" then (parseDur s).map fun n => setField c pr.2 (.int n) else some c
+  | _ => some c
+
+def decodePost (parseDur : String → Option Int) : List (String × String) → Config → Option Config
+  | [], c => some c
+  | pr :: rest, c =>
+    match decodeStep parseDur c pr with
+    | none => none
+    | some c' => decodePost parseDur rest c'
 
 /-! ### Heap view -/
 
